@@ -537,9 +537,8 @@ func run(ctx *core.Ctx) error {
 
 	// documents: every font kind appears; companions are drawn at random
 	rd := ctx.Rand("documents")
-	rounds := ctx.Pick(1, 4)
+	rounds := ctx.Pick(1, 10)
 	var docs []*docCase
-	type group struct{ nf, n int }
 	perNF := map[int][]*docCase{}
 	for round := 0; round < rounds; round++ {
 		order := rd.Perm(len(kinds))
@@ -560,7 +559,11 @@ func run(ctx *core.Ctx) error {
 			docs = append(docs, dc)
 		}
 	}
-	for nf, ds := range perNF {
+	for nf := 2; nf <= 4; nf++ { // fixed order: the seeded generator is shared
+		ds := perNF[nf]
+		if len(ds) == 0 {
+			continue
+		}
 		sweeps := len(ds) / 4
 		bs, err := genBehaviours(ctx, nf, ctx.Seed*100+int64(nf), len(ds)-sweeps, sweeps)
 		if err != nil {
